@@ -61,7 +61,7 @@ def one(d):
         det = {}
         chks = [prop] + [c for c in (ALL_IDS or EXTRA.get(sid, [])) if c != prop]
         for chk in chks:
-            cenv = dict(os.environ, VERIF_REPO=wt, VERIF_OUT=out, VERIF_WORKERS=str(max(2, 16 // J)))
+            cenv = dict(os.environ, VERIF_REPO=wt, VERIF_OUT=out, VERIF_WORKERS=str(max(2, 16 // J)), VERIF_WALL_CAP="900")
             cenv.pop("PYTHONPATH", None)
             p = subprocess.run([f"{ROOT}/check", chk, "--tier", TIER], env=cenv, capture_output=True, text=True, timeout=6000, cwd=ROOT)
             oids = sorted(set(re.findall(r"oracle=(\S+)", p.stdout)))
